@@ -9,7 +9,10 @@ Oracles on the real code alone:
                        capacities are all multiplied by s/norm and whose window is its own window INTERSECTED with the scaled
                        asset's start/end (the scaled asset hands its window down to the base, as a structured asset does),
                        minus s * fix_costs * sum(dt of the scaled asset's own window)
-  (b) `scaled_free`    free scale: V(free) >= V(s_i) on a grid of [min, max] and V(free) = V(s*) at the reported scale
+  (b) `scaled_free`    free scale: V(free) >= V(s_i) on a grid of [min, max] and V(free) = V(s*) at the reported scale;
+                       (b') the same against the REFERENCE R(s) = plain portfolio with the base at all capacities * s/norm less
+                       s * fix_costs * duration: V(free) >= R(s_i) for every scanned scale (end points included) and
+                       V(free) = R(s*) - the optimum is the best over the allowed range
   (c) `structured_flat` [outer.., StructuredAsset(inner)]  vs  flat [outer.., inner..]: same c, l, u, same rows up to
                        N<->S and order, same dispatch rows at outer nodes, same optimal value, solutions transport
 
@@ -155,8 +158,8 @@ def gen_base(rnd, g, prices, T, kind, name, node_names):
     return gen.gen_simple_contract(rnd, g, prices, T, name, node)
 
 
-def gen_scaled_case(rnd, tmax=10, kinds=None, exact=True):
-    g = gen.gen_grid(rnd, tmin=2, tmax=tmax, tz_prob=0.1)
+def gen_scaled_case(rnd, tmax=10, kinds=None, exact=True, g=None):
+    g = g or gen.gen_grid(rnd, tmin=2, tmax=tmax, tz_prob=0.1)
     tg = scen.make_grid(g)
     T = tg.T
     prices = {}
@@ -200,8 +203,8 @@ def gen_scaled_case(rnd, tmax=10, kinds=None, exact=True):
     return {'kind': 'scaled', 'scn': s, 'target': sc['name'], 'base_kind': kind, 'build': draw_build(rnd)}
 
 
-def gen_structured_case(rnd, tmax=10):
-    g = gen.gen_grid(rnd, tmin=2, tmax=tmax, tz_prob=0.1)
+def gen_structured_case(rnd, tmax=10, g=None):
+    g = g or gen.gen_grid(rnd, tmin=2, tmax=tmax, tz_prob=0.1)
     tg = scen.make_grid(g)
     T = tg.T
     prices = {}
@@ -628,9 +631,10 @@ def _violation(oracle, detail, **facts):
     return {'oracle': oracle, 'detail': detail, 'facts': facts}
 
 
-def oracle_scaled(case, seed=0, grid_pts=4):
+def oracle_scaled(case, seed=0, grid_pts=None):
     """oracles (a) and (b) on the real code; returns (violations, stats)"""
-    viol, stats = [], {'fixed': 0, 'free': 0, 'skipped': None}
+    viol, stats = [], {'fixed': 0, 'free': 0, 'free_ref': 0, 'skipped': None}
+    grid_pts = int(grid_pts or case.get('scan') or 4)   # fixed scales scanned in [min_scale, max_scale], both end points included
     build = case.get('build')   # the scaled portfolios are built in the case's way, the reference (rescaled base) the plain way
     scn = jitter_prices(case['scn'], seed)
     target = case['target']
@@ -640,7 +644,8 @@ def oracle_scaled(case, seed=0, grid_pts=4):
     nrm, fc = float(args.get('norm_scale', 1.0)), float(args.get('fix_costs', 0.0))
     base = spec['base']
     facts = {'base_type': base['type'], 'build': build or 'shared', 'own_window': bool('start' in args or 'end' in args),
-             'base_window': bool('start' in base.get('args', {}) or 'end' in base.get('args', {}))}
+             'base_window': bool('start' in base.get('args', {}) or 'end' in base.get('args', {})),
+             'fix_costs_zero': bool(fc == 0), 'free_range': bool(lo < hi), 'window_zones': _window_zones(spec)}
     stats['own_window'], stats['base_window'] = facts['own_window'], facts['base_window']
     try:
         portf, tg, prices, op, sizes = _sizes(scn, build)
@@ -675,6 +680,7 @@ def oracle_scaled(case, seed=0, grid_pts=4):
     s_star = float(res_free.x[off + nblk - 1])
     svals = sorted(set([lo, hi] + [lo + (hi - lo) * i / (grid_pts - 1) for i in range(grid_pts)]))
     best = -np.inf
+    ref_vals = []   # (scale, value of the portfolio with the base at all capacities * scale/norm, less scale * fix_costs * duration)
     for s in svals:
         # (a) fixed scale vs rescaled base
         s_fix = _with_scale(scn, target, s, s)
@@ -712,6 +718,7 @@ def oracle_scaled(case, seed=0, grid_pts=4):
                     what='status', **facts))
             continue
         v2 = float(r2.value) - s * fc * dtsum
+        ref_vals.append((s, v2))
         tol = 1e-5 * max(1.0, abs(v1), abs(v2))
         if abs(v1 - v2) > tol:
             viol.append(_violation('scaled_fixed', 'scale %s (norm %s): value %.8g of the scaled portfolio vs %.8g = value of the portfolio '
@@ -740,45 +747,123 @@ def oracle_scaled(case, seed=0, grid_pts=4):
             if w > 1e-5:
                 viol.append(_violation('scaled_fixed', 'scale %s: solution of the rescaled base portfolio (with s appended) violates %s of the scaled portfolio by %.3g' % (s, what, w),
                                        what='transport-back', **facts))
+    vb, vr = [], []   # violations of (b) and of (b'); reported after those of (a), the statement (b') first
     # (b) free scale
     if best > -np.inf:
         stats['free'] += 1
         tol = 1e-5 * max(1.0, abs(v_free), abs(best))
         if v_free < best - tol:
-            viol.append(_violation('scaled_free', 'free scale value %.8g below fixed-scale value %.8g' % (v_free, best), what='lower', **facts))
+            vb.append(_violation('scaled_free', 'free scale value %.8g below fixed-scale value %.8g' % (v_free, best), what='lower', **facts))
         s_fix = _with_scale(scn, target, s_star, s_star)
         try:
             _, _, _, _, r3 = _solve_scn(s_fix, build=build)
             if not isinstance(r3, str) and abs(float(r3.value) - v_free) > tol:
-                viol.append(_violation('scaled_free', 'free scale value %.8g at reported scale %.6g, but fixing the scale there gives %.8g' % (
+                vb.append(_violation('scaled_free', 'free scale value %.8g at reported scale %.6g, but fixing the scale there gives %.8g' % (
                     v_free, s_star, float(r3.value)), what='at-optimum', **facts))
         except Exception as e:
             stats.setdefault('ref_errors', []).append(err_class(e))
         if not (lo - 1e-7 <= s_star <= hi + 1e-7):
-            viol.append(_violation('scaled_free', 'reported scale %.6g outside [%s, %s]' % (s_star, lo, hi), what='range', **facts))
-    return viol, stats
+            vb.append(_violation('scaled_free', 'reported scale %.6g outside [%s, %s]' % (s_star, lo, hi), what='range', **facts))
+    # (b') free scale, the statement itself: the optimum with a free scale is the best over the allowed range of
+    #      R(s) = value of the plain portfolio with the base at all capacities * s/norm, less s * fix_costs * duration.
+    #      No scanned scale of the range - the end points min_scale and max_scale among them - may do better than the free optimum
+    #      (a smaller size is strictly better when the base carries an obligation and capacity costs nothing), and the free optimum
+    #      is attained: it is R(s*) at the reported scale s*, which lies in the range.
+    if ref_vals:
+        stats['free_ref'] = len(ref_vals)
+        s_best, r_best = max(ref_vals, key=lambda p: p[1])
+        stats['best_scale'] = 'min' if s_best == lo else 'max' if s_best == hi else 'interior'
+        stats['ref_spread'] = bool(r_best - min(v for _, v in ref_vals) > 1e-5 * max(1.0, abs(r_best)))
+        tol = 1e-5 * max(1.0, abs(v_free), abs(r_best))
+        if v_free < r_best - tol:
+            vr.append(_violation('scaled_free', 'free scale in [%s, %s] (norm %s, fix_costs %s): optimal value %.8g at reported scale %.6g, but the base with all '
+                                   'capacities times %s/%s, less %s*%s*%s, gives %.8g: the optimum is not the best over the allowed range (scanned: %s)' % (
+                                       lo, hi, nrm, fc, v_free, s_star, s_best, nrm, s_best, fc, dtsum, r_best,
+                                       ', '.join('%.4g: %.8g' % p for p in ref_vals)), what='best-over-range', **facts))
+        elif lo - 1e-7 <= s_star <= hi + 1e-7:
+            k = s_star / nrm
+            newp = {}
+            bspec = scaled_spec(base, k, scn['prices'], newp)
+            if bspec is not None:
+                bspec['name'] = target
+                _intersect_window(bspec, args)
+                s_ref = _replace_asset(scn, target, [bspec])
+                s_ref['prices'].update(newp)
+                try:
+                    _, _, _, _, r4 = _solve_scn(s_ref)
+                    if isinstance(r4, str):
+                        vr.append(_violation('scaled_free', 'free scale: optimal value %.8g at reported scale %.6g, but the portfolio with the base at all capacities '
+                                               'times %.6g/%s is unsolved (%s)' % (v_free, s_star, s_star, nrm, r4), what='attained-status', **facts))
+                    else:
+                        v4 = float(r4.value) - s_star * fc * dtsum
+                        if abs(v4 - v_free) > 1e-5 * max(1.0, abs(v_free), abs(v4)):
+                            vr.append(_violation('scaled_free', 'free scale: optimal value %.8g at reported scale %.6g, but the base with all capacities times %.6g/%s, '
+                                                   'less %.6g*%s*%s, gives %.8g' % (v_free, s_star, s_star, nrm, s_star, fc, dtsum, v4), what='attained', **facts))
+                except Exception as e:
+                    stats.setdefault('ref_errors', []).append(err_class(e))
+    return viol + vr + vb, stats
+
+
+def _window_zones(spec):
+    """zones in which the window dates of a wrapper and of everything it wraps are written ('' = naive), sorted"""
+    out = set()
+
+    def walk(a):
+        for k in ('start', 'end'):
+            v = a.get('args', {}).get(k)
+            if isinstance(v, dict) and ('$ts' in v or '$dt' in v):
+                out.add(str(v.get('tz') or '') if '$ts' in v else '')
+        if 'base' in a:
+            walk(a['base'])
+        for x in a.get('inner', []):
+            walk(x)
+    walk(spec)
+    return sorted(out)
+
+
+def _date_of(v):
+    """a window date of a specification: None, naive Timestamp ({'$dt': iso}: wall clock of the grid) or zone-aware Timestamp
+    ({'$ts': iso wall clock, 'tz': zone}: a point in time, whatever zone it is written in)"""
+    if v is None:
+        return None
+    if '$ts' in v:
+        return pd.Timestamp(v['$ts'], tz=v.get('tz'))
+    return pd.Timestamp(v['$dt'])
+
+
+def _date_spec(ts):
+    """specification of a date: naive dates as they are, zone-aware dates as the same INSTANT written in UTC"""
+    if ts.tzinfo is None:
+        return gen.dtv(ts)
+    return {'$ts': gen.iso(ts.tz_convert('UTC').tz_localize(None)), 'tz': 'UTC'}
 
 
 def _intersect_window(a, wargs):
-    """what StructuredAsset does to an inner asset's window, and ScaledAsset to its base asset's: the intersection"""
-    def get(d, k):
-        v = d.get(k)
-        return None if v is None else pd.Timestamp(v['$dt'])
-    s, e = get(wargs, 'start'), get(wargs, 'end')
+    """what StructuredAsset does to an inner asset's window, and ScaledAsset to its base asset's: the intersection - by hand on
+    the specification: the later of the two starts and the earlier of the two ends AS POINTS IN TIME (zone-aware dates of
+    different zones are compared by instant, never by their wall-clock reading; naive dates are all wall clock of the grid)"""
+    s, e = _date_of(wargs.get('start')), _date_of(wargs.get('end'))
     # an OrderBook's constructor takes no window: the wrapper sets the attributes (applied after building);
     # for an inner ScaledAsset the wrapper changes the window of the scaled asset, which hands it on to its base
     tgt = a.setdefault('_attrs', {}) if a['type'] == 'OrderBook' else a['args']
     if s is not None:
-        cur = get(tgt, 'start')
-        tgt['start'] = gen.dtv(s if cur is None else max(cur, s))
+        cur = _date_of(tgt.get('start'))
+        if cur is None:
+            tgt['start'] = copy.deepcopy(wargs['start'])
+        else:
+            tgt['start'] = _date_spec(cur if (cur - s) >= pd.Timedelta(0) else s)
     if e is not None:
-        cur = get(tgt, 'end')
-        tgt['end'] = gen.dtv(e if cur is None else min(cur, e))
+        cur = _date_of(tgt.get('end'))
+        if cur is None:
+            tgt['end'] = copy.deepcopy(wargs['end'])
+        else:
+            tgt['end'] = _date_spec(cur if (cur - e) <= pd.Timedelta(0) else e)
 
 
 def oracle_structured(case, seed=0):
     """oracle (c) on the real code; returns (violations, stats)"""
     viol, stats = [], {'compared': 0, 'dispatch_equal': 0, 'skipped': None}
+    pviol = []   # differences of the two PROBLEMS (reported after differences of optimal value / solutions)
     build = case.get('build')   # the structured portfolio is built in the case's way, the flat reference the plain way
     scn = jitter_prices(case['scn'], seed)
     target = case['target']
@@ -787,7 +872,8 @@ def oracle_structured(case, seed=0):
     for a in inner:
         _intersect_window(a, spec['args'])
     flat = _replace_asset(scn, target, inner)
-    facts = {'inner_types': sorted(set(a['type'] for a in inner)), 'window': bool(spec['args']), 'build': build or 'shared'}
+    facts = {'inner_types': sorted(set(a['type'] for a in inner)), 'window': bool(spec['args']), 'build': build or 'shared',
+             'window_zones': _window_zones(spec)}
     try:
         p1, tg1, pr1, op1, r1 = _solve_scn(scn, build=build)
     except Exception as e:
@@ -804,34 +890,35 @@ def oracle_structured(case, seed=0):
     for v in ('c', 'l', 'u'):
         d = pf.cmp_vec(v, j1[v], j2[v], 0)
         if d:
-            viol.append(_violation('structured_flat', 'vector %s differs: %s' % (v, d), what='vectors', **facts))
+            pviol.append(_violation('structured_flat', 'vector %s of the portfolio with the structured asset differs from the flat portfolio\'s: %s' % (
+                v, d.replace('(model)', '(structured)').replace('(impl)', '(flat)')), what='vectors', **facts))
 
     def ns(rows):
         return [dict(r, kind='S' if r['kind'] == 'N' else r['kind']) for r in rows]
     d = pf.cmp_rows('rows', ns(j1['rows']), ns(j2['rows']), 0)
     if d:
-        viol.append(_violation('structured_flat', 'rows differ (up to N<->S, order): %s' % d, what='rows', **facts))
+        pviol.append(_violation('structured_flat', 'rows differ (up to N<->S, order): %s' % d, what='rows', **facts))
     ext_nodes = set(scn['nodes']) - set(spec.get('inner_nodes', []))
 
     def drows(j):
         return sorted((m['var'], m['node'], m['step'], Fraction(m['factor'])) for m in j['mapping'] if m['kind'] == 'd' and m['node'] in ext_nodes)
     if drows(j1) != drows(j2):
-        viol.append(_violation('structured_flat', 'dispatch rows at outer nodes differ between structured and flat mapping', what='mapping', **facts))
+        pviol.append(_violation('structured_flat', 'dispatch rows at outer nodes differ between structured and flat mapping', what='mapping', **facts))
     n1 = sorted((t, n) for t, n in j1.get('nodal', []))
     n2 = sorted((t, n) for t, n in j2.get('nodal', []) if n in ext_nodes)
     if n1 != n2:
-        viol.append(_violation('structured_flat', 'recorded nodal restrictions at outer nodes differ', what='nodal', **facts))
+        pviol.append(_violation('structured_flat', 'recorded nodal restrictions at outer nodes differ', what='nodal', **facts))
     # value level
     if isinstance(r1, str) or isinstance(r2, str):
         if isinstance(r1, str) != isinstance(r2, str):
             viol.append(_violation('structured_flat', 'structured: %s, flat: %s' % (r1 if isinstance(r1, str) else 'solved', r2 if isinstance(r2, str) else 'solved'),
                                    what='status', **facts))
-        return viol, stats
+        return viol + pviol, stats
     v1, v2 = float(r1.value), float(r2.value)
     tol = 1e-5 * max(1.0, abs(v1), abs(v2))
     if abs(v1 - v2) > tol:
         viol.append(_violation('structured_flat', 'optimal value %.8g (structured) vs %.8g (flat)' % (v1, v2), what='value', **facts))
-        return viol, stats
+        return viol + pviol, stats
     if len(op1.c) == len(op2.c):
         w, what = pf.feasibility_violation(op2, r1.x)
         if w > 1e-5:
@@ -861,7 +948,7 @@ def oracle_structured(case, seed=0):
         stats['dispatch_nonzero'] = int(np.max(np.abs(d1)) > 1e-6)
     except Exception as e:
         stats['readout_error'] = err_class(e)
-    return viol, stats
+    return viol + pviol, stats
 
 
 def oracle(case, impl_result=None, seed=0):
